@@ -1,2 +1,3 @@
 pub mod quake;
 pub mod valve;
+pub mod gamespy;
